@@ -74,12 +74,12 @@ def position_payload(cmd):
 
 
 class Session:
-    def __init__(self, binary, trace_path=None, cwd=None):
+    def __init__(self, binary, trace_path=None, cwd=None, prefix=None):
         env = dict(os.environ)
         if trace_path:
             env["WALLEYE_VERIF_TRACE"] = trace_path
         self.t0 = time.monotonic()
-        self.p = subprocess.Popen([binary], stdin=subprocess.PIPE, stdout=subprocess.PIPE, stderr=subprocess.PIPE, env=env,
+        self.p = subprocess.Popen((prefix or []) + [binary], stdin=subprocess.PIPE, stdout=subprocess.PIPE, stderr=subprocess.PIPE, env=env,
                                   cwd=cwd or "/tmp", bufsize=0)
         self.q = queue.Queue()
         self.events = [{"ev": "reset"}]
@@ -210,10 +210,10 @@ def handshake(s, timeout_ms=3000):
     return s.wait_for("uciok", timeout_ms) is not None
 
 
-def run_script(binary, steps, trace_path=None, drain_ms=20):
+def run_script(binary, steps, trace_path=None, drain_ms=20, prefix=None):
     """steps: list of dicts: {"do": "send", "line": ..., "extra": {...}} | {"do": "go", "line":..., "extra":{...}, "wait_ms":...}
     | {"do": "isready"} | {"do": "eof"} | {"do": "quit"}.  Returns the event list."""
-    s = Session(binary, trace_path)
+    s = Session(binary, trace_path, prefix=prefix)
     if not handshake(s):
         s.finish("handshake", 1000)
         return s.events
